@@ -703,10 +703,11 @@ func init() {
 	register(&Property{
 		ID:          "C10",
 		Level:       "other",
-		Explanation: "Decides the structural necessary conditions of 'the signature commits to exactly what is sent and stored': C10-sign — in both flows the signature stored in the certificate is the result of the configured signer's SignHash over cert.PPHashToSign() / cert.FEPHashToSign() of that same certificate object, no covered field is written after the commitment was computed, no successful return of signCertificate bypasses the SignHash call and the aggchain data is written exactly once (no signature cache or shortcut), the signed object is what the flow returns, sendCertificate neither modifies it nor substitutes another object between build, send and JSON serialisation, and the signer fields are written by the constructors only; C10-commit — the byte layout of Certificate.Hash / PPHashToSign / FEPHashToSign ([LAYOUT]) and the construction of their per-exit lists ([LIST]): one element per entry of the exit slice, for the whole range, in order, with the expected element layout, each element in storage of its own (a hoisted, re-sliced buffer makes every chunk alias the last one); GlobalIndex.Hash, GlobalIndexToLittleEndianBytes and the wire encode the same integer bridgesync.GenerateGlobalIndex(flag, rollup, leaf); C10-cover — the set of Certificate fields read by the commitment and identity hashes is computed, and each of them is forwarded by the gRPC conversion, has a JSON key and is restored by UnmarshalJSON; C10-wire — every proto field of the certificate, bridge exit, both claim kinds and their proofs/leaves takes the same-named source field (rename table Rer/Mer/DestNetwork/…; both claim kinds agree on the shared fields), exits converted element-wise in order, siblings positional, leaf type mapping; C10-json — for each type with a hand-written codec the key set written equals the key set read, UnmarshalJSON assigns every field from the decoded field of the same name and MarshalJSON fills every key from it; C10-hashfields — each Hash() of the nested types reads every field of its struct except an explicit, reasoned table. Not decided: collision-freeness beyond 'the field is read into the hash input'. Added after the sub-agent rounds: C10-selector (the tagged-union decoders choose the variant by the presence of a key only that variant's encoder writes), C10-wire#fields-set-on-every-path (a protobuf field is left unset only when the very source it forwards is nil/empty), C10-alias. Added after round 7: C10-record (stored header from the sent certificate on every path, shared with C02-store), C10-cut (shared with C17-filter), and in C10-alias: a mutating big.Int method only on a big.Int the function created, a slice of an array declared outside a loop and refilled in it is never stored.",
+		Explanation: "Decides the structural necessary conditions of 'the signature commits to exactly what is sent and stored': C10-sign — in both flows the signature stored in the certificate is the result of the configured signer's SignHash over cert.PPHashToSign() / cert.FEPHashToSign() of that same certificate object, no covered field is written after the commitment was computed, no successful return of signCertificate bypasses the SignHash call and the aggchain data is written exactly once (no signature cache or shortcut), the signed object is what the flow returns, sendCertificate neither modifies it nor substitutes another object between build, send and JSON serialisation, and the signer fields are written by the constructors only; C10-commit — the byte layout of Certificate.Hash / PPHashToSign / FEPHashToSign ([LAYOUT]) and the construction of their per-exit lists ([LIST]): one element per entry of the exit slice, for the whole range, in order, with the expected element layout, each element in storage of its own (a hoisted, re-sliced buffer makes every chunk alias the last one); GlobalIndex.Hash, GlobalIndexToLittleEndianBytes and the wire encode the same integer bridgesync.GenerateGlobalIndex(flag, rollup, leaf); C10-cover — the set of Certificate fields read by the commitment and identity hashes is computed, and each of them is forwarded by the gRPC conversion, has a JSON key and is restored by UnmarshalJSON; C10-wire — every proto field of the certificate, bridge exit, both claim kinds and their proofs/leaves takes the same-named source field (rename table Rer/Mer/DestNetwork/…; both claim kinds agree on the shared fields), exits converted element-wise in order, siblings positional, leaf type mapping; C10-json — for each type with a hand-written codec the key set written equals the key set read, UnmarshalJSON assigns every field from the decoded field of the same name and MarshalJSON fills every key from it; C10-hashfields — each Hash() of the nested types reads every field of its struct except an explicit, reasoned table. Not decided: collision-freeness beyond 'the field is read into the hash input'. Added after the sub-agent rounds: C10-selector (the tagged-union decoders choose the variant by the presence of a key only that variant's encoder writes), C10-wire#fields-set-on-every-path (a protobuf field is left unset only when the very source it forwards is nil/empty), C10-alias. Added after round 7: C10-record (stored header from the sent certificate on every path, shared with C02-store), C10-cut (shared with C17-filter), and in C10-alias: a mutating big.Int method only on a big.Int the function created, a slice of an array declared outside a loop and refilled in it is never stored. Added after round 9: C10-replace (shared with C13-replace).",
 		Rules: []Rule{
 			{ID: "C10-cut", Floor: 13, Run: shared("C10-cut", c17Filter), Text: "(shared with C17-filter) a range cut copies every other build parameter (retry count included: the stored copy of a resized retry must be storable)"},
 			{ID: "C10-record", Floor: 9, Run: shared("C10-record", c02Store), Text: "(shared with C02-store) the stored header takes height, exit roots and id from the certificate that was sent (the previous LER from that object on every path)"},
+			{ID: "C10-replace", Floor: 20, Run: shared("C10-replace", c13Replace), Text: "(shared with C13-replace) the stored copy is replaced by the certificate that was sent: the old row at that height goes first, inside one transaction"},
 			{ID: "C10-sign", Floor: 16, Run: c10Sign, Text: "[PROV]+[DOM]+[WHO] sign-after-build over the commitment of the same object; no late mutation; same object sent and stored"},
 			{ID: "C10-commit", Floor: 20, Run: c10Commit, Text: "[LAYOUT]+[LIST] byte layout of Hash / PPHashToSign / FEPHashToSign; per-exit lists: one element per exit, whole range, in order, own storage"},
 			{ID: "C10-alias", Floor: 40, Run: c10Alias, Text: "[LIST] repository-wide: no []byte list element shares a loop-carried buffer"},
